@@ -98,6 +98,7 @@ func runProperty(p *Property, tier string, seed int, replay string) (code int) {
 	c.P = prog
 	c.Configs = append(c.Configs, "default")
 	c.Assume = append(c.Assume, p.LevelNote)
+	c.maybeDump()
 	p.Run(c)
 	if tier == "thorough" {
 		if p.Thorough != nil {
